@@ -17,7 +17,7 @@ ok=0; [ "$d0" = "0" ] && [ "$d1" != "0" ] && echo "$suite" | grep -q "baseline_m
 if [ $ok = 1 ]; then
   mkdir -p $DEST; cp $OUT/patch.diff $OUT/demo.py $DEST/; cp $OUT/notes.md $DEST/notes.md 2>/dev/null
   PROP=$P
-  case "$P" in F*|P*|Q*|R*|S*) PROP=$(grep -o -i -m1 "property: *C[0-9][0-9]" $OUT/notes.md | grep -o "C[0-9][0-9]");; esac
+  case "$P" in F*|P*|Q*|R*|S*|T*) PROP=$(grep -o -i -m1 "property: *C[0-9][0-9]" $OUT/notes.md | grep -o "C[0-9][0-9]");; esac
   [ -n "$PROP" ] || { echo "no property named in notes.md"; exit 2; }
   python3 - "$P" "$K" "$d0" "$d1" "$suite" "$PROP" <<'PY'
 import json,sys
